@@ -66,7 +66,7 @@ func genPlan(t *rapid.T) Plan {
 			r.Other = rapid.IntRange(0, 3).Draw(t, "other") == 0
 		}
 		r.Interval = rapid.SampledFrom([]int{10, 100, 300}).Draw(t, "interval")
-		r.Jitter = rapid.SampledFrom([]int{0, 1, r.Interval / 2, r.Interval - 1, r.Interval, r.Interval * 3 / 2}).Draw(t, "jitter") // no domain is documented: a jitter >= interval just makes some waits zero
+		r.Jitter = rapid.SampledFrom([]int{0, 1, r.Interval / 2, r.Interval - 1, r.Interval, r.Interval * 3 / 2, -r.Interval / 5}).Draw(t, "jitter") // no domain is documented: a jitter >= interval just makes some waits zero
 		r.RunMs = rapid.SampledFrom([]int{0, 1, 5, r.Interval * 2}).Draw(t, "run")
 		if r.Kind == "PeriodicOrTrigger" && rapid.Bool().Draw(t, "slowpot") {
 			// runs longer than the interval: the tick fires during the run, so a trigger made during the run
@@ -371,7 +371,11 @@ func script(p Plan, out *vk.Outcome) error {
 			continue
 		}
 		span := int(stopT.Sub(registeredAt[i]) / time.Millisecond)
-		want := span/(reg.Interval+reg.Jitter+reg.RunMs+1) - 1
+		absJitter := reg.Jitter // "interval +/- jitter" is symmetric in the sign of jitter
+		if absJitter < 0 {
+			absJitter = -absJitter
+		}
+		want := span/(reg.Interval+absJitter+reg.RunMs+1) - 1
 		if len(perReg[i]) < want {
 			return vk.Violf("periodic-stalled", "registration %d (%s every %d+-%dms, run time %dms) was live for %dms and ran only %d times (at least %d expected)",
 				i, reg.Kind, reg.Interval, reg.Jitter, reg.RunMs, span, len(perReg[i]), want)
@@ -640,16 +644,84 @@ type TrigStormPlan struct {
 	Kind   string `json:"kind"` // Trigger | PeriodicOrTrigger
 	Rounds int    `json:"rounds"`
 	Sweep  int    `json:"sweep"` // the delay between the end of a run and the next trigger call sweeps 0..Sweep busy iterations
+	// Callers > 0: that many goroutines call the trigger, each pacing itself around the ends of the runs, until
+	// Rounds runs have happened; what is checked is that two runs of f never overlap and none runs after the stop.
+	Callers int `json:"callers,omitempty"`
 }
 
 func genTrigStorm(t *rapid.T) TrigStormPlan {
 	return TrigStormPlan{Kind: rapid.SampledFrom([]string{"Trigger", "Trigger", "PeriodicOrTrigger"}).Draw(t, "kind"),
-		Rounds: rapid.IntRange(1000, 5000).Draw(t, "rounds"), Sweep: rapid.SampledFrom([]int{16, 64, 256}).Draw(t, "sweep")}
+		Rounds: rapid.IntRange(1000, 5000).Draw(t, "rounds"), Sweep: rapid.SampledFrom([]int{16, 64, 256}).Draw(t, "sweep"),
+		Callers: rapid.SampledFrom([]int{0, 0, 3, 4}).Draw(t, "callers")}
+}
+
+// runTrigOverlap: several callers trigger around the end of every run (real goroutines, no clock involved).
+func runTrigOverlap(p TrigStormPlan) (out vk.Outcome, verr error) {
+	g := xsync.NewGroup(context.Background())
+	var active, maxActive atomic.Int32
+	var runs atomic.Uint64
+	f := func(ctx context.Context) {
+		a := active.Add(1)
+		for {
+			m := maxActive.Load()
+			if a <= m || maxActive.CompareAndSwap(m, a) {
+				break
+			}
+		}
+		for k := 0; k < 50; k++ {
+			stormSink.Add(1)
+		}
+		runs.Add(1)
+		active.Add(-1)
+	}
+	var trigger func()
+	if p.Kind == "Trigger" {
+		trigger = g.Trigger(f)
+	} else {
+		trigger = g.PeriodicOrTrigger(1000*time.Hour, 0, f)
+	}
+	var wg sync.WaitGroup
+	var calls atomic.Uint64
+	for c := 0; c < p.Callers; c++ {
+		wg.Add(1)
+		go func(c int) {
+			defer wg.Done()
+			for i := 0; runs.Load() < uint64(p.Rounds) && i < 50*p.Rounds; i++ {
+				seen := runs.Load()
+				trigger()
+				calls.Add(1)
+				for spin := 0; runs.Load() == seen && spin < 2000; spin++ { // until a run has ended (or nearly so)
+					if spin%64 == 63 {
+						runtime.Gosched()
+					}
+				}
+				for k := 0; k < (i+c*7)%(p.Sweep+1); k++ {
+					stormSink.Add(1)
+				}
+			}
+		}(c)
+	}
+	wg.Wait()
+	g.StopAndWait()
+	after := runs.Load()
+	if m := maxActive.Load(); m > 1 {
+		verr = vk.Violf("overlap", "%d runs of one %s function were in progress at the same time (%d goroutines calling the trigger around the end of each run, %d runs, %d calls)", m, p.Kind, p.Callers, after, calls.Load())
+	}
+	runtime.Gosched()
+	if verr == nil && (active.Load() != 0 || runs.Load() != after) {
+		verr = vk.Violf("ran-after-stop", "the %s function was running after StopAndWait had returned", p.Kind)
+	}
+	out.NonTrivial, out.Execs = true, int(after)
+	out.Label("trigger-storm/overlap")
+	return out, verr
 }
 
 var stormSink atomic.Int64
 
 func runTrigStorm(p TrigStormPlan) (out vk.Outcome, verr error) {
+	if p.Callers > 0 {
+		return runTrigOverlap(p)
+	}
 	var stuck string
 	func() {
 		defer func() {
